@@ -14,6 +14,9 @@ CLAIMED = {
     "C09": ("Lean 4 theorems over translator-regenerated unit tables (decide +kernel over all unit pairs, lifted to every magnitude in any ordered field) + bit-exact correspondence run",
             "Proof: every clause of the property is a Lean theorem over the conversion tables regenerated from the Rust source on each run (identity, linearity, 0.1% round trip, 0.1% physical factor, create_time/create_speed/create_energy definitions and rejection), for all magnitudes in any linearly ordered field. The constructors' code shape is guarded by the translator and their behaviour tied by a bit-exact differential run on every unit combination.",
             "§5 C09"),
+    "C18": ("Lean 4 proof of Kosaraju's two-pass algorithm over an executable model of scc.rs (functional DFS, white-path specification + finishing-order invariant, second-pass invariant; fuel shown sufficient) for every well-formed graph and every adjacency iteration order; verified executable checker isSccPartition; exhaustive (all digraphs on <= 3 / <= 4 vertices) and structured random correspondence run against the real functions with an independent transitive-closure oracle",
+            "Proof: for every well-formed Graph value (any vertex count, self loops, parallel edges, isolated vertices, any keys() order of the adjacency slots; in particular every graph EdgeLoader builds from an edge list whose end points are vertices) the model of all_strongly_connected_componenets returns without error and its result is a list of non-empty blocks whose concatenation is repetition-free and holds exactly the vertices, each block being exactly the set of vertices mutually reachable with any of its members (scc_partition, scc_exactly_one, scc_sound, scc_complete, scc_iff); largest_strongly_connected_component returns a block of maximal length, the first such (largest_is_max, largest_ties_first). All theorems are complete (no _partial). The model is tied to the code by a correspondence run (real Graph values built in-process, keys() order read back from the real container, canonicalised output textually equal) and the real output is additionally judged by an independent closure oracle and by the verified checker (testing). Outside the model: stack depth of the recursive Rust functions, Graph values that are not well formed (correspondence only).",
+            "§5 C18, Appendix A.6 (finishing-order lemma corrected, see Props/C18.lean)"),
 }
 
 NOT_YET = {
